@@ -25,8 +25,8 @@ pub fn prop() -> Prop {
         id: "C06",
         level: "fault_enumeration",
         runs: |t| match t {
-            Tier::Quick => 700,
-            Tier::Thorough => 9000,
+            Tier::Quick => 3500,
+            Tier::Thorough => 40000,
         },
         generate,
         exec,
@@ -38,7 +38,7 @@ pub fn prop() -> Prop {
         stub: &["transport", "store", "glue", "random source", "tampering dealer / network"],
         independent: &["harness Lagrange interpolation and commitment evaluation"],
         ref_sample: |_| 0,
-        required_probes: &["degree_ge_3", "degree_ge_6", "tamper_value", "tamper_identifier_other", "tamper_identifier_fresh", "tamper_commitment_0", "tamper_commitment_last", "tamper_truncate", "tamper_extend", "order_independent", "params_refused", "all_subsets_reconstruct", "split_known_key"],
+        required_probes: &["degree_ge_3", "degree_ge_6", "degree_ge_15", "params_list_plus_65536", "tamper_value", "tamper_identifier_other", "tamper_identifier_fresh", "tamper_commitment_0", "tamper_commitment_last", "tamper_truncate", "tamper_extend", "order_independent", "params_refused", "all_subsets_reconstruct", "split_known_key"],
         prepare: None,
     }
 }
@@ -58,7 +58,12 @@ fn gen_c<C: Suite>(seed: u64, run: u64, tier: Tier) -> Scenario {
         (Tier::Thorough, false) => 16,
         (Tier::Thorough, true) => 8,
     };
-    let (n, t) = gen_nt(&mut p, 2, max_n);
+    let (mut n, mut t) = gen_nt(&mut p, 2, max_n);
+    // now and then a high-degree sharing (the commitment evaluation and Horner loops for degree >= 15)
+    if !slow && p.chance(1, 30) {
+        n = p.range(16, if C::COST >= 3 { 24 } else { 40 }) as u16;
+        t = p.range(16, n as u64) as u16;
+    }
     s.n = n;
     s.t = t;
     s.id_scheme = (*p.pick(&ID_SCHEMES)).to_string();
@@ -71,7 +76,12 @@ fn gen_c<C: Suite>(seed: u64, run: u64, tier: Tier) -> Scenario {
     s.faults = gen_honest_faults(&mut fp, &s, p.range(0, 5) as usize, mask);
     // boundary parameter sets (expensive ones only in the thorough tier on the cheapest suite)
     let big = tier == Tier::Thorough && C::COST <= 1 && p.chance(1, 60);
-    s.extra = json!({"big_params": big});
+    // an identifier list that is too long by exactly 65536 (costs seconds if it is ever accepted): once in a while
+    let long_list = match tier {
+        Tier::Quick => C::COST <= 1 && run % 60 == 0,
+        Tier::Thorough => C::COST <= 2 && p.chance(1, 60),
+    };
+    s.extra = json!({"big_params": big, "long_list": long_list});
     s
 }
 
@@ -135,6 +145,9 @@ fn exec_c<C: Suite>(scen: &Scenario) -> Exec {
     }
     if t >= 7 {
         rep.probe("degree_ge_6");
+    }
+    if t >= 16 {
+        rep.probe("degree_ge_15");
     }
     if key.is_some() {
         rep.probe("split_known_key");
@@ -266,6 +279,10 @@ fn exec_c<C: Suite>(scen: &Scenario) -> Exec {
     };
     let only: Option<(usize, String)> = scen.extra.get("only").and_then(|o| o.as_array()).map(|a| (a[0].as_u64().unwrap() as usize, a[1].as_str().unwrap().to_string()));
     for (p, id) in ids.iter().enumerate() {
+        // high-degree worlds: the sweep over all shares would cost seconds; first, last and a few others suffice there
+        if n > 12 && p > 2 && p + 3 < n {
+            continue;
+        }
         let sh = &shares[id];
         let ser = sh.commitment().serialize().unwrap_or_default();
         let s = share_scalar::<C>(sh.signing_share());
@@ -356,6 +373,22 @@ fn exec_c<C: Suite>(scen: &Scenario) -> Exec {
             (scen.n, scen.t, Some({ let mut v = ids.clone(); v[n - 1] = v[0]; v }), "duplicate identifier".into()),
             (scen.n + 1, scen.t, Some({ let mut v = ids.clone(); v.push(ids[0]); v }), "duplicate identifier with matching count".into()),
         ];
+        let mut cases = cases;
+        if scen.extra["long_list"].as_bool().unwrap_or(false) {
+            // n + 65536 distinct identifiers for max_signers = n
+            let mut v = ids.clone();
+            let mut k = 1_000_000u64;
+            while v.len() < n + 65536 {
+                if let Some(id) = id_from_scalar::<C>(&sc_from_u64::<C>(k)) {
+                    if !ids.contains(&id) {
+                        v.push(id);
+                    }
+                }
+                k += 1;
+            }
+            cases.push((scen.n, scen.t, Some(v), "identifier list too long by exactly 65536".into()));
+            rep.probe("params_list_plus_65536");
+        }
         for (nn, tt, list, what) in cases {
             if let Some(v) = try_params(nn, tt, list, &what, &mut rep) {
                 return Exec::Violation(v, rep);
